@@ -22,6 +22,19 @@ CLAIMED = {
              'Workbooks <= ~30 cells, histories <= 30 operations, <= 3 restarts.',
         technique=TECH + ': seeded operation histories with restart faults vs. from-scratch reference model, ddmin replay files',
         design='DESIGN.md section 3 C01'),
+    'C04': dict(
+        level='exploration',
+        text='The C01 histories (all origins, restarts, every reference form) run under a read-trace monitor '
+             'installed at the seam where pycel injects _C_/_R_ into compiled formulas: at the instant of '
+             'every read the address must be a declared precedent with its edge in dep_graph (or lie inside '
+             'declared ranges with edges cell->range->formula), and after every evaluate all inputs the '
+             'harness DAG names must be graph ancestors of the evaluated cell (influence confirmed through '
+             'the reference model before reporting). Sampling of formulas and histories, not proof.',
+        note='Trusted: the build_eval_context wrapper (sim/seams.py) sees every read a formula makes; the '
+             'harness DAG (generator-recorded precedents); networkx.ancestors. Reads by the compiler itself '
+             '(no formula on the stack) are out of scope of the statement.',
+        technique=TECH + ': seeded histories with a read-trace monitor on the injection seam, graph invariants checked at every read',
+        design='DESIGN.md section 3 C04'),
     'C05': dict(
         level='exploration',
         text='All 24 first-evaluation orders of 4 target cells per generated workbook, each first touch and '
@@ -51,7 +64,7 @@ NOT_APPLICABLE = {
     'C20': 'text functions are pure string functions',
 }
 
-PENDING = {k: 'applicable (see DESIGN.md) but its check is not built yet in this snapshot; not claimed until it is' for k in ('C03', 'C04', 'C06', 'C07', 'C08', 'C09', 'C12')}
+PENDING = {k: 'applicable (see DESIGN.md) but its check is not built yet in this snapshot; not claimed until it is' for k in ('C03', 'C06', 'C07', 'C08', 'C09', 'C12')}
 
 
 def main():
